@@ -930,6 +930,17 @@ func (p *Ptr) targetTypeNoCast() types.Type {
 
 func (x *Exec) binop(fr *Frame, st *State, op token.Token, a, b *Term, ta, tb types.Type, pos token.Pos) *Term {
 	w := x.w
+	if a.Sort == "BC" && b.Sort == "BC" {
+		switch op {
+		case token.OR:
+			return w.BCOr(a, b)
+		case token.EQL:
+			return Eq(a, b)
+		case token.NEQ:
+			return Not(Eq(a, b))
+		}
+		unsupportedf("operator %s on abstract instruction words", op)
+	}
 	ub, _ := ta.Underlying().(*types.Basic)
 	isInt := ub != nil && ub.Info()&types.IsInteger != 0
 	isFloat := ub != nil && ub.Info()&types.IsFloat != 0
